@@ -952,6 +952,12 @@ impl Gen {
             self.back_by = 1 + self.rng.below(600) as i64;
             self.back_until_ms = self.now_ms + 1000 * (1 + self.rng.below(20));
             self.stats.hit("clock_back_step");
+            // one back-step in ten goes to before the epoch: the clock reads a negative time for a while
+            if self.rng.chance(1, 10) {
+                let now = self.clock_now().unix_timestamp + self.back_by;
+                self.back_by = now.saturating_add(*self.rng.pick(&[1i64, 2, 86_400, 1 << 31, 1 << 40]));
+                self.stats.hit("clock_reads_a_negative_time");
+            }
         }
     }
 
